@@ -1,4 +1,4 @@
-from registry import H, kani_unit, verus_unit, PROPS, UNITS
+from registry import H, kani_unit, verus_unit, native_unit, PROPS, UNITS
 
 STUB = "StubHasher double (8-byte digest, xor/rotate mixing): functional equalities only; parametricity of DefaultRandomCoin in its hasher"
 kani_unit("crypto_random", "winter-crypto", "crypto/src/random/default.rs", "kani/crypto_random.rs", "random::default", [
@@ -20,4 +20,20 @@ for u in UNITS:
     if u["unit"] == "crypto_random":
         u["trusted"] = [STUB]
 
-PROPS["C19"] = dict(level="other", claimed=True, level_text="tbd", level_note="tbd", explanation="tbd")
+
+B8 = "8 symbolic leaf digests (stub hasher); position set enumerated concretely"
+kani_unit("crypto_merkle", "winter-crypto", "crypto/src/merkle/mod.rs", "kani/crypto_merkle.rs", "merkle", [
+    H("merkle_root_bounded", ["C10"], ["MerkleTree::new", "build_merkle_nodes"], "root == reference fold of the leaves", bounded="4 and 8 symbolic leaves"),
+    H("merkle_prove_verify_bounded", ["C10"], ["MerkleTree::prove", "MerkleTree::verify"],
+      "forall i < 8: verify(root, i, prove(i)) is Ok; a different claimed leaf is rejected; prove(8) is an error", bounded="8 symbolic leaves, symbolic position"),
+    H("merkle_canary_must_fail", ["C10"], [], "false claim: the opening of leaf 1 verifies at position 2", canary=True),
+])
+for u in UNITS:
+    if u["unit"] == "crypto_merkle":
+        u["trusted"] = [STUB]
+
+native_unit("merkle_native", "winter-crypto", "crypto", "native/merkle_bounded.rs", ["C10", "C06"],
+            ["MerkleTree::prove_batch", "MerkleTree::verify_batch", "BatchMerkleProof::get_root", "BatchMerkleProof::into_paths",
+             "BatchMerkleProof::from_paths", "merkle::map_indexes", "merkle::normalize_indexes"],
+            "batch openings verify, decompress to the single paths in list order and re-compress; every single-element / shape / position mutation is rejected without a panic",
+            "NATIVE EXECUTION, not a proof: trees of 2/4/8/16 leaves (Blake3_256), every non-empty position subset in ascending, descending and one seeded shuffled order; mutations for all subsets of trees <= 8 leaves and a seeded 1/128 sample of the 16-leaf tree")
